@@ -88,6 +88,20 @@ type Op struct {
 	// PathRef > 0: the request goes to the path of operation PathRef-1 (the per-endpoint request
 	// limit is keyed by the path); the operation is then told apart by a query
 	PathRef int `json:"pathRef,omitempty"`
+	// BodyLike > 0 (upload): the first SameFirst bytes of the body are those of operation BodyLike-1's
+	// body (a retried upload of a changed document: same beginning, different rest)
+	BodyLike  int `json:"bodyLike,omitempty"`
+	SameFirst int `json:"sameFirst,omitempty"`
+}
+
+// UpBody is the request body of operation i.
+func UpBody(i int, op Op) []byte {
+	b := Body(i*2, op.Up)
+	if op.BodyLike > 0 {
+		ref := Body((op.BodyLike-1)*2, op.Up)
+		copy(b[:min(op.SameFirst, len(b))], ref)
+	}
+	return b
 }
 
 type Scenario struct {
@@ -343,7 +357,12 @@ func Run(t *testing.T, sc Scenario, track bool) (tr Trace) {
 			body, _ := rq.ReadBody()
 			rec.BodyLen = len(body)
 			up, _ := strconv.Atoi(q["u"])
-			rec.BodyOK = rec.Op >= 0 && bytes.Equal(body, Body(rec.Op*2, up))
+			wantBody := Body(rec.Op*2, up)
+			if like, _ := strconv.Atoi(q["l"]); like > 0 {
+				same, _ := strconv.Atoi(q["f"])
+				wantBody = UpBody(rec.Op, Op{Up: up, BodyLike: like, SameFirst: same})
+			}
+			rec.BodyOK = rec.Op >= 0 && bytes.Equal(body, wantBody)
 			// the other options of the request must be preserved: Content-Format and the marker ETag
 			rec.OptsOK = true
 			if q["e"] == "1" {
@@ -583,6 +602,10 @@ func Run(t *testing.T, sc Scenario, track bool) (tr Trace) {
 				path = fmt.Sprintf("/t/%d", op.PathRef-1)
 				addQ(fmt.Sprintf("i=%d", i))
 			}
+			if op.BodyLike > 0 {
+				addQ(fmt.Sprintf("l=%d", op.BodyLike))
+				addQ(fmt.Sprintf("f=%d", op.SameFirst))
+			}
 			addQ(fmt.Sprintf("u=%d", op.Up))
 			addQ(fmt.Sprintf("d=%d", op.Down))
 			if op.Mode != "" && op.Mode != "slow" {
@@ -616,7 +639,7 @@ func Run(t *testing.T, sc Scenario, track bool) (tr Trace) {
 				var err error
 				var body io.ReadSeeker
 				if op.Up > 0 {
-					body = bytes.NewReader(Body(i*2, op.Up))
+					body = bytes.NewReader(UpBody(i, op))
 				}
 				switch op.Kind {
 				case "post":
@@ -652,7 +675,7 @@ func Run(t *testing.T, sc Scenario, track bool) (tr Trace) {
 				}
 				if op.Up > 0 {
 					m.SetContentFormat(message.AppOctets)
-					m.SetBody(bytes.NewReader(Body(i*2, op.Up)))
+					m.SetBody(bytes.NewReader(UpBody(i, op)))
 				}
 				err := cli.WriteMessage(m)
 				cli.ReleaseMessage(m)
